@@ -493,7 +493,23 @@ def run_cvc5(smt2, timeout_s=60):
             pass
 
 
+_FACT_NAMES = {}
+
+
 def _path_names(pc):
+    """path names occurring in a hypothesis list (per-fact results are cached: lists share most facts)"""
+    names = {}
+    for f in pc:
+        key = f.get_id()
+        hit = _FACT_NAMES.get(key)
+        if hit is None or not hit[0].eq(f):
+            hit = (f, _path_names_of([f]))
+            _FACT_NAMES[key] = hit
+        names.update(hit[1])
+    return names
+
+
+def _path_names_of(pc):
     names = {}
     stack = list(pc)
     seen = set()
